@@ -1,12 +1,16 @@
-package main
+// Package scen builds, deterministically from seeded per-party random streams, the parties of one run of each
+// toy-capable protocol; shared by the deviation-matrix driver (cmd/tamper) and the two-run driver (cmd/tworun).
+package scen
 
 import (
 	"fmt"
 	"io"
+	"sync"
 
 	"github.com/bronlabs/bron-crypto/pkg/base/datastructures/hashmap"
 	"github.com/bronlabs/bron-crypto/pkg/base/serde"
 	"github.com/bronlabs/bron-crypto/pkg/mpc/dkg/trusteddealer"
+	"github.com/bronlabs/bron-crypto/pkg/mpc/sharing/vss/feldman"
 	"github.com/bronlabs/bron-crypto/pkg/mpc/signatures/schnorr/lindell22/signing"
 	"github.com/bronlabs/bron-crypto/pkg/proofs/sigma/compiler/fiatshamir"
 
@@ -18,21 +22,108 @@ import (
 
 // A scenario builds, deterministically from a seed, the parties of one protocol run and a function
 // that projects the outputs of the parties that completed.
-type built struct {
-	parties []proto.Party
-	outputs func(completed []ID) map[string]any
-	trusted ID // a party that must not be the deviator (redistribution anchor), 0 if none
-	isPrev  map[ID]bool // redistribution: previous holders (nil elsewhere)
+type ID = ad.ID
+
+type Built struct {
+	Parties []proto.Party
+	Outputs func(completed []ID) map[string]any
+	Trusted ID          // a party that must not be the deviator (redistribution anchor), 0 if none
+	IsPrev  map[ID]bool // redistribution: previous holders (nil elsewhere)
 }
 
-type scenario struct {
-	name  string
-	build func(seed uint64) *built
+type Scenario struct {
+	Name  string
+	Build func(st *Streams) *Built
 }
 
-func rngFor(seed uint64) func(ID) io.Reader {
-	n := uint64(0)
-	return func(id ID) io.Reader { n++; return tr.Rng(seed, 5000+n*131+uint64(id)) }
+// Streams hands every party two deterministic random streams: a set-up stream (session establishment, dealing of
+// the key material the run starts from) and a protocol stream (everything the protocol under study samples).
+// Alt overrides the seed of one party's protocol stream (two-run experiments); AltSetup likewise for the set-up stream.
+// Every reader handed out is recorded.
+type Streams struct {
+	Seed     uint64
+	Alt      map[ID]uint64
+	AltSetup map[ID]uint64
+	Rec      map[ID]*Recorder // protocol-stream recorders
+	nSetup   map[ID]uint64
+	nProto   map[ID]uint64
+}
+
+func NewStreams(seed uint64) *Streams {
+	return &Streams{Seed: seed, Alt: map[ID]uint64{}, AltSetup: map[ID]uint64{}, Rec: map[ID]*Recorder{}, nSetup: map[ID]uint64{}, nProto: map[ID]uint64{}}
+}
+
+// Setup returns the next set-up reader of party id.
+func (st *Streams) Setup(id ID) io.Reader {
+	st.nSetup[id]++
+	sd := st.Seed
+	if a, ok := st.AltSetup[id]; ok {
+		sd = a
+	}
+	return tr.Rng(sd, 100000+uint64(id)*1000+st.nSetup[id])
+}
+
+// Proto returns the (single, recorded) protocol reader of party id.
+func (st *Streams) Proto(id ID) io.Reader {
+	if r, ok := st.Rec[id]; ok {
+		return r
+	}
+	sd := st.Seed
+	if a, ok := st.Alt[id]; ok {
+		sd = a
+	}
+	r := &Recorder{R: tr.Rng(sd, 900000+uint64(id))}
+	st.Rec[id] = r
+	return r
+}
+
+// Recorder records every read of a party's protocol stream.
+type Recorder struct {
+	mu    sync.Mutex
+	R     io.Reader
+	Round int
+	Reads []Read
+	ByRnd map[int]int
+}
+
+type Read struct {
+	Round int
+	Data  []byte
+}
+
+func (r *Recorder) Read(p []byte) (int, error) {
+	r.mu.Lock()
+	defer r.mu.Unlock()
+	n, err := r.R.Read(p)
+	if n > 0 {
+		r.Reads = append(r.Reads, Read{Round: r.Round, Data: append([]byte(nil), p[:n]...)})
+		if r.ByRnd == nil {
+			r.ByRnd = map[int]int{}
+		}
+		r.ByRnd[r.Round] += n
+	}
+	return n, err
+}
+
+// tracked wraps a party so that its recorder knows the current round.
+type tracked struct {
+	proto.Party
+	rec *Recorder
+}
+
+func (t *tracked) Round(k int, inB, inU map[ID][]byte) ([]byte, map[ID][]byte, error) {
+	if t.rec != nil {
+		t.rec.Round = k
+	}
+	return t.Party.Round(k, inB, inU)
+}
+
+func (st *Streams) track(ps []proto.Party) []proto.Party {
+	out := make([]proto.Party, len(ps))
+	for i, p := range ps {
+		out[i] = &tracked{Party: p, rec: st.Rec[p.ID()]}
+	}
+	return out
 }
 
 func pol3() *ad.Policy { return &ad.Policy{Kind: "threshold", T: 2, IDs: []uint64{1, 2, 3}} }
@@ -49,22 +140,21 @@ func shardOut(get func(ID) *ad.Shard) func([]ID) map[string]any {
 	}
 }
 
-func scenarios() []scenario {
-	return []scenario{
-		{"session", func(seed uint64) *built {
+func Scenarios() []Scenario {
+	return []Scenario{
+		{"session", func(st *Streams) *Built {
 			ids := []ID{1, 2, 3}
-			r := rngFor(seed)
 			sp := map[ID]*ad.SessionParty{}
 			ps := []proto.Party{}
 			for _, id := range ids {
-				p, err := ad.NewSessionParty(id, ids, r(id))
+				p, err := ad.NewSessionParty(id, ids, st.Proto(id))
 				if err != nil {
 					panic(err)
 				}
 				sp[id] = p
 				ps = append(ps, p)
 			}
-			return &built{parties: ps, outputs: func(completed []ID) map[string]any {
+			return &Built{Parties: st.track(ps), Outputs: func(completed []ID) map[string]any {
 				out := map[string]any{}
 				for _, id := range completed {
 					c := sp[id].Ctx
@@ -81,10 +171,9 @@ func scenarios() []scenario {
 				return map[string]any{"kind": "session", "by": out}
 			}}
 		}},
-		{"hjky", func(seed uint64) *built {
+		{"hjky", func(st *Streams) *Built {
 			ids := []ID{1, 2, 3}
-			r := rngFor(seed)
-			ctxs, err := ad.SetupSessions(ids, r)
+			ctxs, err := ad.SetupSessions(ids, st.Setup)
 			if err != nil {
 				panic(err)
 			}
@@ -92,31 +181,30 @@ func scenarios() []scenario {
 			hp := map[ID]*ad.HJKYParty{}
 			ps := []proto.Party{}
 			for _, id := range ids {
-				p, err := ad.NewHJKYParty(ctxs[id], as, r(id))
+				p, err := ad.NewHJKYParty(ctxs[id], as, st.Proto(id))
 				if err != nil {
 					panic(err)
 				}
 				hp[id] = p
 				ps = append(ps, p)
 			}
-			return &built{parties: ps, outputs: func(completed []ID) map[string]any {
+			return &Built{Parties: st.track(ps), Outputs: func(completed []ID) map[string]any {
 				out := map[string]any{}
 				var M, lab any
 				for _, id := range completed {
 					out[fmt.Sprint(uint64(id))] = map[string]any{"share": ad.ShareJ(hp[id].OutShare), "vv": ad.VVJ(hp[id].OutVV)}
 				}
-				sch, _ := newFeldman(as)
+				sch, _ := feldman.NewScheme(toy.NewGroup(), as)
 				m := ad.MSPJ(sch.MSP())
 				M, lab = m["M"], m["lab"]
 				return map[string]any{"kind": "zero", "by": out, "M": M, "lab": lab}
 			}}
 		}},
-		{"redist", func(seed uint64) *built { return buildRedist(seed, []ID{1, 2}, []uint64{1, 2, 3}, 0) }},
-		{"redistAnchor", func(seed uint64) *built { return buildRedist(seed, []ID{1, 2, 3}, []uint64{2, 3, 4}, 1) }},
-		{"gennaro", func(seed uint64) *built {
+		{"redist", func(st *Streams) *Built { return buildRedist(st, []ID{1, 2}, []uint64{1, 2, 3}, 0) }},
+		{"redistAnchor", func(st *Streams) *Built { return buildRedist(st, []ID{1, 2, 3}, []uint64{2, 3, 4}, 1) }},
+		{"gennaro", func(st *Streams) *Built {
 			ids := []ID{1, 2, 3}
-			r := rngFor(seed)
-			ctxs, err := ad.SetupSessions(ids, r)
+			ctxs, err := ad.SetupSessions(ids, st.Setup)
 			if err != nil {
 				panic(err)
 			}
@@ -124,19 +212,18 @@ func scenarios() []scenario {
 			gp := map[ID]*ad.GennaroParty{}
 			ps := []proto.Party{}
 			for _, id := range ids {
-				p, err := ad.NewGennaroParty(ctxs[id], as, fiatshamir.Name, r(id))
+				p, err := ad.NewGennaroParty(ctxs[id], as, fiatshamir.Name, st.Proto(id))
 				if err != nil {
 					panic(err)
 				}
 				gp[id] = p
 				ps = append(ps, p)
 			}
-			return &built{parties: ps, outputs: shardOut(func(id ID) *ad.Shard { return gp[id].Out })}
+			return &Built{Parties: st.track(ps), Outputs: shardOut(func(id ID) *ad.Shard { return gp[id].Out })}
 		}},
-		{"canetti", func(seed uint64) *built {
+		{"canetti", func(st *Streams) *Built {
 			ids := []ID{1, 2, 3}
-			r := rngFor(seed)
-			ctxs, err := ad.SetupSessions(ids, r)
+			ctxs, err := ad.SetupSessions(ids, st.Setup)
 			if err != nil {
 				panic(err)
 			}
@@ -144,20 +231,19 @@ func scenarios() []scenario {
 			cp := map[ID]*ad.CanettiParty{}
 			ps := []proto.Party{}
 			for _, id := range ids {
-				p, err := ad.NewCanettiParty(ctxs[id], as, r(id))
+				p, err := ad.NewCanettiParty(ctxs[id], as, st.Proto(id))
 				if err != nil {
 					panic(err)
 				}
 				cp[id] = p
 				ps = append(ps, p)
 			}
-			return &built{parties: ps, outputs: shardOut(func(id ID) *ad.Shard { return cp[id].Out })}
+			return &Built{Parties: st.track(ps), Outputs: shardOut(func(id ID) *ad.Shard { return cp[id].Out })}
 		}},
-		{"lindell22", func(seed uint64) *built {
+		{"lindell22", func(st *Streams) *Built {
 			ids := []ID{1, 2, 3}
-			r := rngFor(seed)
 			as, _ := pol3().Build()
-			shards, err := trusteddealer.Deal(toy.NewGroup(), as, r(0))
+			shards, err := trusteddealer.Deal(toy.NewGroup(), as, st.Setup(0))
 			if err != nil {
 				panic(err)
 			}
@@ -165,7 +251,7 @@ func scenarios() []scenario {
 			for _, sh := range shards.Iter() {
 				pk = sh.PublicKeyValue().Log()
 			}
-			ctxs, err := ad.SetupSessions(ids, r)
+			ctxs, err := ad.SetupSessions(ids, st.Setup)
 			if err != nil {
 				panic(err)
 			}
@@ -178,15 +264,15 @@ func scenarios() []scenario {
 				if err != nil {
 					return nil // identity public key (1/q): the caller picks another seed
 				}
-				lp, err := ad.NewL22Party(ctxs[id], ss, fiatshamir.Name, msg, r(id))
+				lp, err := ad.NewL22Party(ctxs[id], ss, fiatshamir.Name, msg, st.Proto(id))
 				if err != nil {
 					panic(err)
 				}
-				p := &signParty{L22Party: lp, shard: ss, ids: ids, rd: r(id)}
+				p := &signParty{L22Party: lp, shard: ss, ids: ids, rd: st.Setup(id)}
 				sp[id] = p
 				ps = append(ps, p)
 			}
-			return &built{parties: ps, outputs: func(completed []ID) map[string]any {
+			return &Built{Parties: st.track(ps), Outputs: func(completed []ID) map[string]any {
 				out := map[string]any{}
 				for _, id := range completed {
 					if s := sp[id].sig; s != nil {
@@ -247,10 +333,9 @@ func (s *signParty) Round(k int, inB, inU map[ID][]byte) ([]byte, map[ID][]byte,
 	panic("bad round")
 }
 
-func buildRedist(seed uint64, prev []ID, nextIDs []uint64, anchor ID) *built {
-	r := rngFor(seed)
+func buildRedist(st *Streams, prev []ID, nextIDs []uint64, anchor ID) *Built {
 	as, _ := pol3().Build()
-	shards, err := trusteddealer.Deal(toy.NewGroup(), as, r(0))
+	shards, err := trusteddealer.Deal(toy.NewGroup(), as, st.Setup(0))
 	if err != nil {
 		panic(err)
 	}
@@ -269,7 +354,7 @@ func buildRedist(seed uint64, prev []ID, nextIDs []uint64, anchor ID) *built {
 			parties = append(parties, i)
 		}
 	}
-	ctxs, err := ad.SetupSessions(parties, r)
+	ctxs, err := ad.SetupSessions(parties, st.Setup)
 	if err != nil {
 		panic(err)
 	}
@@ -288,7 +373,7 @@ func buildRedist(seed uint64, prev []ID, nextIDs []uint64, anchor ID) *built {
 		if !isPrev[id] {
 			a = anchor
 		}
-		p, err := ad.NewRedistParty(ctxs[id], prev, sh, nextAS, r(id), a)
+		p, err := ad.NewRedistParty(ctxs[id], prev, sh, nextAS, st.Proto(id), a)
 		if err != nil {
 			panic(err)
 		}
@@ -300,7 +385,7 @@ func buildRedist(seed uint64, prev []ID, nextIDs []uint64, anchor ID) *built {
 		oldPk = sh.PublicKeyValue().Log()
 	}
 	so := shardOut(func(id ID) *ad.Shard { return rp[id].Out })
-	return &built{parties: ps, trusted: anchor, isPrev: isPrev, outputs: func(completed []ID) map[string]any {
+	return &Built{Parties: st.track(ps), Trusted: anchor, IsPrev: isPrev, Outputs: func(completed []ID) map[string]any {
 		m := so(completed)
 		m["oldPk"] = oldPk
 		return m
